@@ -15,11 +15,14 @@
  *   ext s                          writes "ready", blocks in read(0): the driver sends signal s from outside and
  *                                  then one byte; a byte that arrives means the signal did not end us: exit 99
  *   rlimits                        getrlimit of all 16 resources: "rl <res> <cur> <max>"
- *   burn ms                        spin on the CPU for ms of *user CPU time*, report own usage, exit 0
+ *   burn ms [end]                  spin on the CPU for ms of *user CPU time*, report own usage, then end
+ *                                  (end: exit:n | fault:segv | hang; default exit 0)
  *                                  (ms = 0: spin until killed; gives up after 20 s CPU with exit 98)
  *   grow bytes chunk               write to fd 4 until bytes are written or an error: "efbig errno", exit 97
- *   touch kib                      mmap + touch kib KiB, report own ru_maxrss, exit 0
+ *   touch kib [end]                mmap + touch kib KiB, report own ru_maxrss, then end (as for burn)
  *   write volume chunk delay_us    (collector) write volume bytes of a pattern to fd 1, report every outcome
+ * LIMITS_CORE=1 (raise/fault/sys): first a child dies of SIGSEGV and "corewit 0|1" says whether the
+ *   kernel produced a core dump for it (WCOREDUMP seen by its parent)
  * child behaviour (environment LIMITS_CHILD, performed before the mode):
  *   none | exitfirst:c | outlive | killed:s | orphanexit:c | orphankilled:s (re-parented descendant)
  */
@@ -204,6 +207,52 @@ static void do_child(const char *spec)
 
 static volatile int zero;
 
+/* LIMITS_CORE=1: can a core dump be produced here?  A child dies of a null store; what its parent
+ * (this process) sees in the wait status, WCOREDUMP included, is kernel truth for that question. */
+static void core_witness(void)
+{
+	const char *e = getenv("LIMITS_CORE");
+	int st = 0;
+	if (!e || strcmp(e, "1"))
+		return;
+	pid_t p = fork();
+	if (p < 0) {
+		rep("forkfail", errno);
+		_exit(96);
+	}
+	if (p == 0) {
+		close(REP);
+		*(volatile int *)0 = 1;
+		_exit(95);
+	}
+	waitpid(p, &st, 0);
+	rep("corewitsig", WIFSIGNALED(st) ? WTERMSIG(st) : -1);
+	rep("corewit", WIFSIGNALED(st) && WCOREDUMP(st) ? 1 : 0);
+}
+
+/* how a limit-verdict program ends after it used what it was asked to use:
+ * exit:n | fault:segv | hang (reports "ready", then blocks until the caller cancels the run) */
+static void do_end(const char *end)
+{
+	if (!end || !*end || !strncmp(end, "exit:", 5))
+		die(end && *end ? atoi(end + 5) : 0);
+	if (!strcmp(end, "fault:segv")) {
+		rep("raising", SIGSEGV);
+		*(volatile int *)0 = 1;
+		rep("survived", SIGSEGV);
+		die(99);
+	}
+	if (!strcmp(end, "hang")) {
+		char c;
+		rep("ready", 0);
+		for (;;)
+			if (read(0, &c, 1) <= 0)
+				usleep(10000);
+	}
+	rep("badend", 0);
+	_exit(96);
+}
+
 static void do_fault(const char *k)
 {
 	if (!strcmp(k, "segv")) {
@@ -296,6 +345,8 @@ int main(int argc, char **argv)
 	all_default();
 	rep("start", 0);
 	do_child(getenv("LIMITS_CHILD"));
+	if (!strcmp(mode, "raise") || !strcmp(mode, "fault") || !strcmp(mode, "sys"))
+		core_witness();
 
 	if (!strcmp(mode, "exit")) {
 		die(atoi(argv[2]));
@@ -346,7 +397,7 @@ int main(int argc, char **argv)
 			}
 		}
 		usage_report();
-		die(0);
+		do_end(argc > 3 ? argv[3] : NULL);
 	} else if (!strcmp(mode, "grow")) {
 		long long total = atoll(argv[2]), chunk = atoll(argv[3]), done = 0;
 		char *buf = calloc(1, chunk);
@@ -380,7 +431,7 @@ int main(int argc, char **argv)
 		}
 		rep("touched", kib);
 		usage_report();
-		die(0);
+		do_end(argc > 3 ? argv[3] : NULL);
 	}
 	rep("badmode", 0);
 	return 96;
